@@ -955,6 +955,10 @@ def to_ms(graph: demes.Graph, *, N0, samples=None) -> str:
             if size != epoch.end_size:
                 size = epoch.end_size
                 events.append(PopulationSizeChange(epoch.end_time, j, size / N0))
+                # In ms, setting the size with -en also sets the growth rate
+                # to zero, so a following epoch with the same growth rate
+                # still needs its own -eg.
+                growth_rate = 0
             alpha = get_growth_rate(epoch)
             if growth_rate != alpha:
                 growth_rate = alpha
